@@ -759,3 +759,7 @@ def check(case):
                 else:
                     M.enable_sensitivities(True)
                 inv('after %s' % s['ops'][:i + 1])
+
+
+RULE += (' Classes and clauses added in later rounds of the seeded-change protocol (DESIGN 9.4) are named in REQUIRED '
+         'and in seeded/HISTORY.json; the evidence counts every one of them under classes.')
